@@ -51,24 +51,35 @@ Definition set_value (vs : list (Z * list (Z * value))) (name bc latest : Z) (v 
   let drop := Z.to_nat (Z.max 0 (Z.of_nat (length inner) - latest + 1)) in
   oins lt1 name (oins lt1 bc v (skipn drop inner)) vs.
 
-(** InitGenesis on chain B whose service contexts are [e]: every value of a feed is stored under the
-    SAME key — the current batch counter of the feed's request context *)
-Fixpoint imp_entries (e : env) (g : genesis) (s : state) : option state :=
+(** InitGenesis, the values of one feed ([vl] newest first, [bc] the context's current batch counter).
+    The code as it was ([fx] = false) stored every value under the SAME key [bc], so only the last one
+    written — the oldest — survived.  The repaired code (commit "fix: oracle InitGenesis keeps the order of
+    a feed's exported values") stores the oldest first under consecutive keys ending at [bc]
+    ([max bc (n-1)] for a hand-made genesis with more values than batches). *)
+Definition imp_feed_values (fx : bool) (vs : list (Z * list (Z * value))) (name bc latest : Z) (vl : list value) :=
+  if fx then
+    let n := Z.of_nat (length vl) in
+    let base := if bc + 1 <? n then n - 1 else bc in
+    fst (fold_left (fun mk v => (set_value (fst mk) name (snd mk) latest v, snd mk + 1)) (rev vl) (vs, base - (n - 1)))
+  else fold_left (fun m v => set_value m name bc latest v) vl vs.
+
+(** InitGenesis on chain B whose service contexts are [e] *)
+Fixpoint imp_entries (fx : bool) (e : env) (g : genesis) (s : state) : option state :=
   match g with
   | [] => Some s
   | (f, st, vl) :: g' =>
       match get (o_ctx f) e with
       | None => None                                                  (* "unknown servcie request context" *)
       | Some (_, bc) =>
-          let vs := fold_left (fun m v => set_value m (o_name f) bc (o_latest f) v) vl (vals s) in
-          imp_entries e g'
+          let vs := imp_feed_values fx (vals s) (o_name f) bc (o_latest f) vl in
+          imp_entries fx e g'
             (mkState (oins lt1 (o_name f) f (feeds s)) (oins lt1 (o_ctx f) (o_name f) (ctx_idx s)) vs
                      (if st =? 0 then oins lt1 (o_name f) tt (running s) else running s)
                      (if st =? 0 then paused s else oins lt1 (o_name f) tt (paused s)))
       end
   end.
-Definition import (e : env) (g : genesis) : option state :=
-  if negb (validate g) then None else imp_entries e g (mkState [] [] [] [] []).
+Definition import (fx : bool) (e : env) (g : genesis) : option state :=
+  if negb (validate g) then None else imp_entries fx e g (mkState [] [] [] [] []).
 
 (** PrepForZeroHeightGenesis: every running feed moves to the other queue *)
 Definition prep (s : state) : state :=
@@ -101,35 +112,31 @@ Record run := mkRun {
 }.
 Record case := mkCase { c_runs : list run }.
 
+(** the tree under check contains the repair *)
+Definition fixed_hist : bool := true.
+
 Definition corr_run (r : run) : bool :=
   invb (r_sA r)
   && eqb (export (r_eA r) (r_sA r)) (r_gA r)
   && eqb (validate (r_gA r)) (r_val r)
-  && match import (r_eB r) (r_gA r) with
+  && match import fixed_hist (r_eB r) (r_gA r) with
      | None => negb (r_imp r =? 0)
      | Some b => (r_imp r =? 0) && eqb (r_sB r) (Some b) && eqb (r_gB r) (Some (export (r_eB r) b))
      end.
 
 (** clause codes: 1 export does not validate; 21 import panics because the feed's request context is
     missing on B (the service genesis did not import); 2 import panics otherwise; 41 a feed's value
-    history reads differently on B; 42 ... and in another way than the recorded finding (only the oldest
-    value of each feed left); 3 second export differs; 4 a feed or its state reads differently
+    history reads differently on B; 3 second export differs; 4 a feed or its state reads differently
     on B; 5 B's running queue disagrees with the exported states.
-    Clause 3 compares the second export without the values (their loss is clause 41). *)
+ *)
 Definition values_view (s : state) := map (fun x => (fst x, rev (map snd (snd x)))) (vals s).
-(** the recorded finding 41 in its exact shape: of every feed's history only the OLDEST value survives *)
-Definition collapsed (v : list (Z * list value)) : list (Z * list value) :=
-  map (fun x => (fst x, match rev (snd x) with [] => [] | o :: _ => [o] end)) v.
 Definition strip (g : genesis) : list (feed * Z) := map fst g.
 Definition prop_clauses (r : run) : list (Z * bool) :=
     [ (1, r_val r);
       (21, (r_imp r =? 0) || forallb (fun en => has (o_ctx (fst (fst en))) (r_eB r)) (r_gA r));
       (2, (r_imp r =? 0) || negb (forallb (fun en => has (o_ctx (fst (fst en))) (r_eB r)) (r_gA r)));
       (41, match r_sB r with Some b => eqb (values_view b) (values_view (r_sA r)) | None => true end);
-      (42, match r_sB r with
-           | Some b => eqb (values_view b) (values_view (r_sA r)) || eqb (values_view b) (collapsed (values_view (r_sA r)))
-           | None => true end);
-      (3, match r_gB r with Some g => eqb (strip g) (strip (r_gA r)) | None => true end);
+      (3, match r_gB r with Some g => eqb g (r_gA r) | None => true end);
       (4, match r_sB r with Some b => eqb (feeds b) (feeds (r_sA r)) | None => true end);
       (5, match r_sB r with
           | Some b => forallb (fun en => eqb (has (o_name (fst (fst en))) (running b)) (snd (fst en) =? 0)) (r_gA r)
@@ -147,7 +154,7 @@ Fixpoint first_div (rs : list run) (i : Z) : Z :=
   end.
 
 (** the clause codes recorded as known findings of this module (see known-findings.txt) *)
-Definition known_codes : list Z := [21; 41].
+Definition known_codes : list Z := [21].
 
 Definition check_oracle (c : case) : Z * Z * Z :=
   let pre_ok :=
